@@ -1,5 +1,8 @@
 import Cfi.Line
 import Spec.C11
+import Proofs.SplitJoin
+import Proofs.StripLaw
+import Props.C01
 /-! C11 — property theorems. -/
 namespace Props.C11
 open Cfi Cfi.Text Spec.C11
@@ -47,5 +50,422 @@ theorem go_getElem (fs : List Field) (ts : List (List Char)) (i : Nat) (hi : i <
       | succ i =>
         simp only [readDelim.go, List.getElem?_cons_succ, List.getElem_cons_succ]
         exact ih ts i (by simpa using hi)
+
+end Props.C11
+
+/-! ### the written line, and reading it back -/
+namespace Props.C11
+open Cfi Cfi.Text Spec.C11
+
+theorem renderText_rebased (f : Field) (v : Val) : renderText f.rebased v = renderText f v := rfl
+
+/-- writing a rebased field onto the empty line gives exactly its rendering -/
+theorem writeText_rebased_nil (f : Field) (v : Val) (r : List Char) (hr : renderText f v = .ok r)
+    (hl : r.length = f.size) : f.rebased.writeText v [] = .ok r := by
+  simp only [Field.writeText, renderText_rebased, hr, Except.map]
+  congr 1
+  simp only [splice, Field.rebased, List.length_nil]
+  by_cases h0 : f.size = 0
+  · have : r = [] := List.length_eq_zero_iff.mp (by omega)
+    simp [h0, this]
+  · have : 0 < f.size := by omega
+    simp [this, ljust, List.drop_replicate, hl]
+
+/-- **The written line** is the blank-trimmed renderings joined by the delimiter,
+plus one newline — for every layout and every value list whose renderings are
+`size` wide. -/
+theorem writeDelim_eq (fs : List Field) (vs : List Val) (rs : List (List Char)) (d : List Char)
+    (hlen : fs.length = vs.length)
+    (hr : ∀ i (hi : i < fs.length), ∃ r, rs[i]? = some r ∧ renderText fs[i] (vs[i]'(hlen ▸ hi)) = .ok r ∧ r.length = (fs[i]).size)
+    (hrl : rs.length = fs.length) :
+    writeDelim fs vs d = .ok (join d (rs.map strip) ++ ['\n']) := by
+  have key : ∀ (fs : List Field) (vs : List Val) (rs : List (List Char)), fs.length = vs.length →
+      rs.length = fs.length →
+      (∀ i (hi : i < fs.length) (hi' : i < vs.length), ∃ r, rs[i]? = some r ∧ renderText fs[i] vs[i] = .ok r ∧ r.length = (fs[i]).size) →
+      (fs.zip vs).mapM (fun (fv : Field × Val) => (fv.1.rebased.writeText fv.2 []).map strip) = .ok (rs.map strip) := by
+    intro fs
+    induction fs with
+    | nil =>
+      intro vs rs hl hrl _
+      have : rs = [] := List.length_eq_zero_iff.mp (by simpa using hrl)
+      subst this; cases vs <;> rfl
+    | cons f fs ih =>
+      intro vs rs hl hrl h
+      cases vs with
+      | nil => simp at hl
+      | cons v vs =>
+        cases rs with
+        | nil => simp at hrl
+        | cons r0 rs =>
+          obtain ⟨r, h1, h2, h3⟩ := h 0 (by simp) (by simp)
+          simp only [List.getElem?_cons_zero, Option.some.injEq] at h1
+          subst h1
+          simp only [List.getElem_cons_zero] at h2 h3
+          have ht := ih vs rs (by simpa using hl) (by simpa using hrl) (fun i hi hi' => by
+            have := h (i + 1) (by simpa using hi) (by simpa using hi')
+            simpa using this)
+          simp only [Except.map] at ht
+          simp only [List.zip_cons_cons, List.mapM_cons, writeText_rebased_nil f v r0 h2 h3, Except.map,
+            bind, Except.bind, ht, List.map_cons, pure, Except.pure]
+  unfold writeDelim
+  rw [key fs vs rs hlen hrl (fun i hi hi' => hr i hi)]
+  rfl
+
+end Props.C11
+
+/-! ### reading the written line back -/
+namespace Props.C11
+open Cfi Cfi.Text Spec.C11
+
+theorem join_cons_ne (sep x : List Char) (xs : List (List Char)) (h : xs ≠ []) :
+    join sep (x :: xs) = x ++ sep ++ join sep xs := by
+  cases xs with
+  | nil => exact absurd rfl h
+  | cons y ys => rfl
+
+/-- text appended to a joined line lands in its last token -/
+theorem join_snoc_append (sep : List Char) (ts : List (List Char)) (t x : List Char) :
+    join sep (ts ++ [t]) ++ x = join sep (ts ++ [t ++ x]) := by
+  induction ts with
+  | nil => rfl
+  | cons a ts ih =>
+    rw [List.cons_append, List.cons_append, join_cons_ne _ _ _ (by simp), join_cons_ne _ _ _ (by simp),
+      List.append_assoc, ih]
+
+theorem go_zip (fs : List Field) (ts : List (List Char)) (h : ts.length = fs.length) :
+    readDelim.go fs ts = (fs.zip ts).map (fun ft => ft.1.rebased.readText ft.2) := by
+  induction fs generalizing ts with
+  | nil => simp [readDelim.go]
+  | cons f fs ih =>
+    cases ts with
+    | nil => simp at h
+    | cons t ts => simp [readDelim.go, ih ts (by simpa using h)]
+
+/-- a token no longer than the field is read whole -/
+theorem readText_rebased (f : Field) (t : List Char) (h : t.length ≤ f.size) :
+    f.rebased.readText t = (parseText f.kind t).getD .none := by
+  simp only [Field.readText, Field.rebased, slice, List.drop_zero]
+  rw [List.take_of_length_le h]
+
+/-- **Token-wise read-back.**  For any layout, any non-empty delimiter `d` without
+a newline, and any renderings `rs` (one per field, `size` wide) whose trimmed
+texts contain no character of `d`: the line `writeDelim` produces is split by
+`readDelim` into exactly those trimmed texts, and the i-th value read is the
+parse of the i-th trimmed text alone. -/
+theorem read_written (fs : List Field) (vs : List Val) (rs : List (List Char)) (d : List Char)
+    (hlen : fs.length = vs.length) (hrl : rs.length = fs.length)
+    (hr : ∀ i (hi : i < fs.length), ∃ r, rs[i]? = some r ∧ renderText fs[i] (vs[i]'(hlen ▸ hi)) = .ok r ∧ r.length = (fs[i]).size)
+    (hd : d ≠ []) (hnl : ¬ '\n' ∈ d)
+    (hfree : ∀ r ∈ rs, ∀ c ∈ strip r, ¬ c ∈ d) :
+    ∃ w, writeDelim fs vs d = .ok w ∧ w = join d (rs.map strip) ++ ['\n'] ∧
+      readDelim fs w d = (fs.zip (rs.map strip)).map (fun ft => (parseText ft.1.kind ft.2).getD .none) := by
+  refine ⟨_, writeDelim_eq fs vs rs d hlen hr hrl, rfl, ?_⟩
+  -- sizes of the trimmed texts
+  have hsz : ∀ ft ∈ fs.zip (rs.map strip), ft.2.length ≤ ft.1.size := by
+    intro ft hft
+    obtain ⟨i, hi, heq⟩ := List.getElem_of_mem hft
+    simp only [List.length_zip, List.length_map] at hi
+    have hif : i < fs.length := by omega
+    obtain ⟨r, h1, _, h3⟩ := hr i hif
+    have hir : i < rs.length := by omega
+    have : rs[i] = r := by rw [List.getElem?_eq_getElem hir] at h1; exact Option.some.inj h1
+    rw [List.getElem_zip] at heq
+    subst heq
+    simp only [List.getElem_map, this]
+    have := length_strip_le r
+    omega
+  cases hrs : rs.reverse with
+  | nil =>
+    have : rs = [] := by simpa using hrs
+    subst this
+    have : fs = [] := List.length_eq_zero_iff.mp (by simpa using hrl.symm)
+    subst this
+    simp [readDelim, readDelim.go]
+  | cons rl rinit =>
+    have hrs' : rs = rinit.reverse ++ [rl] := by
+      have := congrArg List.reverse hrs; simpa using this
+    -- the newline joins the last token
+    have hline : join d (rs.map strip) ++ ['\n'] = join d ((rinit.reverse.map strip) ++ [strip rl ++ ['\n']]) := by
+      rw [hrs', List.map_append, List.map_cons, List.map_nil, join_snoc_append]
+    have hsplit : split (join d (rs.map strip) ++ ['\n']) d = (rinit.reverse.map strip) ++ [strip rl ++ ['\n']] := by
+      rw [hline]
+      apply split_join d hd _ (by simp)
+      intro t ht c hc
+      rw [List.mem_append] at ht
+      rcases ht with ht | ht
+      · obtain ⟨r, hr1, hr2⟩ := List.mem_map.1 ht
+        subst hr2
+        exact hfree r (by rw [hrs']; simp [List.mem_reverse.1 (List.mem_reverse.2 hr1)]) c hc
+      · simp only [List.mem_singleton] at ht
+        subst ht
+        rw [List.mem_append] at hc
+        rcases hc with hc | hc
+        · exact hfree rl (by rw [hrs']; simp) c hc
+        · simp only [List.mem_singleton] at hc; subst hc; exact hnl
+    have htok : (split (join d (rs.map strip) ++ ['\n']) d).map strip = rs.map strip := by
+      rw [hsplit, hrs']
+      simp only [List.map_append, List.map_map, List.map_cons, List.map_nil, strip_append_newline, strip_idem]
+      congr 1
+      apply List.map_congr_left
+      intro a _
+      simp [strip_idem]
+    unfold readDelim
+    simp only [htok]
+    rw [go_zip fs _ (by simpa using hrl)]
+    apply List.map_congr_left
+    intro ft hft
+    exact readText_rebased ft.1 ft.2 (hsz ft hft)
+
+end Props.C11
+
+/-! ### the statement of `Spec.C11.holds`, for all inputs -/
+namespace Props.C11
+open Cfi Cfi.Text Spec.C11
+
+/-- the stripped tokens of `join d us ++ "\n"` are the stripped `us` -/
+theorem tokens_of_joined (d : List Char) (us : List (List Char)) (hd : d ≠ []) (hnl : ¬ '\n' ∈ d)
+    (hne : us ≠ []) (hfree : ∀ u ∈ us, ∀ c ∈ u, ¬ c ∈ d) :
+    (split (join d us ++ ['\n']) d).map strip = us.map strip := by
+  cases hrs : us.reverse with
+  | nil => exact absurd (by simpa using hrs) hne
+  | cons ul uinit =>
+    have hus : us = uinit.reverse ++ [ul] := by
+      have := congrArg List.reverse hrs; simpa using this
+    have hsplit : split (join d us ++ ['\n']) d = uinit.reverse ++ [ul ++ ['\n']] := by
+      rw [hus, join_snoc_append]
+      apply split_join d hd _ (by simp)
+      intro t ht c hc
+      rw [List.mem_append] at ht
+      rcases ht with ht | ht
+      · exact hfree t (by rw [hus]; simp [ht]) c hc
+      · simp only [List.mem_singleton] at ht
+        subst ht
+        rw [List.mem_append] at hc
+        rcases hc with hc | hc
+        · exact hfree ul (by rw [hus]; simp) c hc
+        · simp only [List.mem_singleton] at hc; subst hc; exact hnl
+    rw [hsplit, hus]
+    simp [strip_append_newline]
+
+/-- blanks around a token disappear when it is trimmed -/
+theorem strip_padded (t : List Char) (a b : Nat) :
+    strip (List.replicate a ' ' ++ t ++ List.replicate b ' ') = strip t := by
+  unfold strip
+  rw [stripBy_append_replicate _ b ' ' isStripWs_blank]
+  unfold stripBy
+  rw [dropWhile_replicate_append_any a ' ' t isStripWs_blank]
+
+/-- the per-token law (the delimited counterpart of `Props.C01.RenderLaw`): the
+trimmed rendering parses to the canonical form of the value -/
+def TokLaw (f : Field) (v : Val) (r : List Char) : Prop :=
+  renderText f v = .ok r ∧ r.length = f.size ∧
+    (parseText f.kind (strip r)).getD .none = canonTok f v (strip r)
+
+theorem tokens_eq (fs : List Field) (vs : List Val) (rs : List (List Char))
+    (hlen : fs.length = vs.length) (hrl : rs.length = fs.length)
+    (hr : ∀ i (hi : i < fs.length), ∃ r, rs[i]? = some r ∧ renderText fs[i] (vs[i]'(hlen ▸ hi)) = .ok r) :
+    tokens fs vs = some (rs.map strip) := by
+  unfold tokens
+  induction fs generalizing vs rs with
+  | nil =>
+    have : rs = [] := List.length_eq_zero_iff.mp (by simpa using hrl)
+    subst this; cases vs <;> rfl
+  | cons f fs ih =>
+    cases vs with
+    | nil => simp at hlen
+    | cons v vs =>
+      cases rs with
+      | nil => simp at hrl
+      | cons r0 rs =>
+        obtain ⟨r, h1, h2⟩ := hr 0 (by simp)
+        simp only [List.getElem?_cons_zero, Option.some.injEq] at h1
+        subst h1
+        simp only [List.getElem_cons_zero] at h2
+        have ht := ih vs rs (by simpa using hlen) (by simpa using hrl) (fun i hi => by
+          have := hr (i + 1) (by simpa using hi)
+          simpa using this)
+        simp only [List.zip_cons_cons, List.mapM_cons, h2, ht, List.map_cons, bind, Option.bind, pure]
+
+end Props.C11
+
+namespace Props.C11
+open Cfi Cfi.Text Spec.C11
+
+theorem readDelim_of_tokens (fs : List Field) (line d : List Char) (ts : List (List Char))
+    (h : (split line d).map strip = ts) : readDelim fs line d = readDelim.go fs ts := by
+  unfold readDelim; rw [h]
+
+theorem go_canon (fs : List Field) (vs : List Val) (rs : List (List Char))
+    (hlen : fs.length = vs.length) (hrl : rs.length = fs.length)
+    (hlaw : ∀ i (hi : i < fs.length), ∃ r, rs[i]? = some r ∧ TokLaw fs[i] (vs[i]'(hlen ▸ hi)) r) :
+    readDelim.go fs (rs.map strip) =
+      ((fs.zip vs).zip (rs.map strip)).map (fun (fvt : (Field × Val) × List Char) => canonTok fvt.1.1 fvt.1.2 fvt.2) := by
+  induction fs generalizing vs rs with
+  | nil => simp [readDelim.go]
+  | cons f fs ih =>
+    cases vs with
+    | nil => simp at hlen
+    | cons v vs =>
+      cases rs with
+      | nil => simp at hrl
+      | cons r0 rs =>
+        obtain ⟨r, h1, h2, h3, h4⟩ := hlaw 0 (by simp)
+        simp only [List.getElem?_cons_zero, Option.some.injEq] at h1
+        subst h1
+        simp only [List.getElem_cons_zero] at h2 h3 h4
+        have ht := ih vs rs (by simpa using hlen) (by simpa using hrl) (fun i hi => by
+          have := hlaw (i + 1) (by simpa using hi)
+          simpa using this)
+        have hsz : (strip r0).length ≤ f.size := by have := length_strip_le r0; omega
+        simp only [List.map_cons, readDelim.go, List.zip_cons_cons, ht, readText_rebased f _ hsz, h4]
+
+/-- **C11, for every input in the guard.**  For any layout `fs`, values `vs` whose
+renderings obey the per-token law, any non-empty delimiter without newline or
+blank, tokens free of the delimiter's characters, any padding and any sequence
+of further lines: the model's write/read cycle satisfies the whole of
+`Spec.C11.holds` — the written line is the trimmed renderings joined by `d` plus
+a newline, reading it back gives the canonical values token by token, blanks
+around tokens change nothing, and reads do not influence one another. -/
+theorem main (fs : List Field) (vs : List Val) (rs : List (List Char)) (d : List Char)
+    (pads : List (Nat × Nat)) (lines : List (List Char))
+    (hlen : fs.length = vs.length) (hrl : rs.length = fs.length) (hp : fs.length ≤ pads.length)
+    (hlaw : ∀ i (hi : i < fs.length), ∃ r, rs[i]? = some r ∧ TokLaw fs[i] (vs[i]'(hlen ▸ hi)) r)
+    (hd : d ≠ []) (hnl : ¬ '\n' ∈ d) (hblank : ¬ ' ' ∈ d)
+    (hfree : ∀ r ∈ rs, ∀ c ∈ strip r, ¬ c ∈ d) :
+    ∃ o, cycle fs vs d pads lines = some o ∧ holds fs vs d pads lines o = true := by
+  have hr : ∀ i (hi : i < fs.length), ∃ r, rs[i]? = some r ∧ renderText fs[i] (vs[i]'(hlen ▸ hi)) = .ok r ∧ r.length = (fs[i]).size := by
+    intro i hi
+    obtain ⟨r, h1, h2, h3, _⟩ := hlaw i hi
+    exact ⟨r, h1, h2, h3⟩
+  have hw := writeDelim_eq fs vs rs d hlen hr hrl
+  have htk := tokens_eq fs vs rs hlen hrl (fun i hi => by
+    obtain ⟨r, h1, h2, _⟩ := hr i hi; exact ⟨r, h1, h2⟩)
+  refine ⟨⟨join d (rs.map strip) ++ ['\n'], readDelim fs (join d (rs.map strip) ++ ['\n']) d,
+    readDelim fs (padLine (rs.map strip) d pads) d, expectedSeq fs d lines⟩, by simp only [cycle, hw, htk], ?_⟩
+  simp only [holds, htk, beq_self_eq_true, Bool.true_and, Bool.and_true, Bool.and_eq_true, beq_iff_eq]
+  by_cases hrs : rs = []
+  · subst hrs
+    have : fs = [] := List.length_eq_zero_iff.mp (by simpa using hrl.symm)
+    subst this
+    simp [readDelim, readDelim.go]
+  · have hne : rs.map strip ≠ [] := by simpa using hrs
+    have hback : readDelim fs (join d (rs.map strip) ++ ['\n']) d = readDelim.go fs (rs.map strip) := by
+      apply readDelim_of_tokens
+      rw [tokens_of_joined d _ hd hnl hne]
+      · simp [strip_idem]
+      · intro u hu c hc
+        obtain ⟨r, hr1, hr2⟩ := List.mem_map.1 hu
+        subst hr2
+        exact hfree r hr1 c hc
+    have hpad : readDelim fs (padLine (rs.map strip) d pads) d = readDelim.go fs (rs.map strip) := by
+      apply readDelim_of_tokens
+      unfold padLine
+      rw [tokens_of_joined d _ hd hnl]
+      · rw [List.map_map]
+        have hlz : (rs.map strip).length ≤ pads.length := by simpa [hrl] using hp
+        -- trimming every padded token gives the token list back
+        have : ∀ (ts : List (List Char)) (ps : List (Nat × Nat)), ts.length ≤ ps.length →
+            (ts.zip ps).map (strip ∘ fun (tp : List Char × Nat × Nat) =>
+              List.replicate tp.2.1 ' ' ++ tp.1 ++ List.replicate tp.2.2 ' ') = ts.map strip := by
+          intro ts
+          induction ts with
+          | nil => simp
+          | cons t ts ih =>
+            intro ps hps
+            cases ps with
+            | nil => simp at hps
+            | cons p ps =>
+              simp only [List.zip_cons_cons, List.map_cons, Function.comp, strip_padded]
+              congr 1
+              exact ih ps (by simpa using hps)
+        rw [this _ _ hlz]
+        simp [strip_idem]
+      · intro h
+        have hz := congrArg List.length h
+        simp only [List.length_map, List.length_zip, List.length_nil] at hz
+        have : 0 < rs.length := List.length_pos_iff.2 hrs
+        omega
+      · intro u hu c hc
+        obtain ⟨tp, htp1, htp2⟩ := List.mem_map.1 hu
+        subst htp2
+        have hmem := (List.of_mem_zip htp1).1
+        obtain ⟨r, hr1, hr2⟩ := List.mem_map.1 hmem
+        simp only [List.mem_append, List.mem_replicate] at hc
+        rcases hc with (hc | hc) | hc
+        · rw [hc.2]; exact hblank
+        · rw [← hr2] at hc; exact hfree r hr1 c hc
+        · rw [hc.2]; exact hblank
+    rw [hback, hpad]
+    refine ⟨?_, ?_⟩
+    · exact go_canon fs vs rs hlen hrl hlaw
+    · trivial
+
+end Props.C11
+
+/-! ### the per-token law, proved for integers, literals and missing values -/
+namespace Props.C11
+open Cfi Cfi.Text Spec.C11 Cfi.PyInt
+
+theorem stripWs_not_digit : ∀ n : Nat, n ≤ 57 → 45 ≤ n → Cfi.Generated.stripWs.contains n = false := by decide
+
+theorem isStripWs_digit {c : Char} (h : c.isDigit = true) : isStripWs c = false := by
+  have := (isDigit_iff c).1 h
+  exact stripWs_not_digit c.toNat this.2 (by omega)
+
+theorem isStripWs_minus : isStripWs '-' = false := by decide
+
+theorem pyStr_ends_strip (n : Int) : (∀ x, (pyStr n).head? = some x → isStripWs x = false) ∧
+    (∀ x, (pyStr n).getLast? = some x → isStripWs x = false) := by
+  cases n with
+  | ofNat k =>
+    have hd := natDigits_isDigit k
+    exact ⟨fun x hx => isStripWs_digit (hd x (List.mem_of_head? hx)),
+           fun x hx => isStripWs_digit (hd x (List.mem_of_getLast? hx))⟩
+  | negSucc k =>
+    have hd := natDigits_isDigit (k + 1)
+    have hne : natDigits (k + 1) ≠ [] := by simp [natDigits]
+    refine ⟨fun x hx => by simp [pyStr] at hx; subst hx; exact isStripWs_minus, fun x hx => ?_⟩
+    simp only [pyStr] at hx
+    rw [List.getLast?_cons_of_ne_nil hne] at hx
+    exact isStripWs_digit (hd x (List.mem_of_getLast? hx))
+
+/-- the delimited token of an integer is its decimal text -/
+theorem strip_rjust_pyStr (n : Int) (size : Nat) : strip (rjust (pyStr n) size ' ') = pyStr n := by
+  unfold strip rjust
+  exact stripBy_pad_left _ ' ' (pyStr n) isStripWs_blank (pyStr_ends_strip n).1 (pyStr_ends_strip n).2
+
+theorem tokLaw_int (f : Field) (n : Int) (hk : f.kind = .int)
+    (hfit : (pyStr n).length ≤ f.size) (hbig : n.natAbs < 10 ^ 4300) :
+    TokLaw f (.int n) (rjust (pyStr n) f.size ' ') := by
+  refine ⟨?_, ?_, ?_⟩
+  · simp [renderText, renderRaw, renderFull, hk, Val.isNull, Except.map]
+  · rw [length_rjust]; omega
+  · rw [strip_rjust_pyStr]
+    simp [parseText, hk, canonTok, Spec.C01.canon, Val.isNull, pyInt_pyStr n hbig]
+
+theorem tokLaw_lit (f : Field) (s : List Char) (hk : f.kind = .lit) (hfit : s.length ≤ f.size) :
+    TokLaw f (.str s) (ljust s f.size ' ') := by
+  refine ⟨?_, ?_, ?_⟩
+  · simp [renderText, renderRaw, renderFull, hk, Val.isNull, Except.map]
+  · rw [length_ljust]; omega
+  · simp [parseText, hk, canonTok, Spec.C01.canon, Val.isNull, strip_ljust, strip_idem]
+
+/-- a missing value is an empty token and reads back as missing (`""` for literals) -/
+theorem tokLaw_null (f : Field) (v : Val) (hn : v.isNull = true)
+    (hk : f.kind = .lit ∨ f.kind = .int) :
+    TokLaw f v (List.replicate f.size ' ') := by
+  refine ⟨Props.C01.render_null f v hn, by simp, ?_⟩
+  rw [strip_replicate_blank, canonTok, Props.C01.canon_null f v _ hn]
+  rcases hk with hk | hk <;> simp [hk, parseText, strip, stripBy, pyInt, sign, digitsUS]
+
+/-- non-vacuity: a three-field line (integer, literal, missing integer) with a
+two-character delimiter meets every hypothesis of `main` -/
+example :
+    let fs : List Field := [⟨.int, 5, 0, 5⟩, ⟨.lit, 4, 5, 9⟩, ⟨.int, 3, 9, 12⟩]
+    let vs : List Val := [.int (-42), .str ['a', 'b'], .none]
+    ∃ o, cycle fs vs [';', ';'] [(1, 2), (0, 0), (3, 0)] [['x']] = some o ∧
+      holds fs vs [';', ';'] [(1, 2), (0, 0), (3, 0)] [['x']] o = true ∧
+      o.written = "-42;;ab;;\n".toList ∧ o.readBack = [.int (-42), .str ['a', 'b'], .none] := by
+  decide +kernel
 
 end Props.C11
